@@ -322,6 +322,14 @@ func H_C07_streamable_get_stream() {
 func H_C07_legacy_client() {
 	kind := vChoice("bad", c07Kinds)
 	pos := vChoice("pos", 3)
+	// the adversarial data frames come both as typed events (which the legacy reader dispatches to the message
+	// handler) and as data-only events without an event field (which it must skip without side effects)
+	badPrefix := "event: message\n"
+	if kind <= 1 || kind == 5 {
+		if vChoice("typed", 2) == 0 {
+			badPrefix = ""
+		}
+	}
 	stream := newVerifStream()
 	net := &verifNet{}
 	posts := 0
@@ -336,7 +344,7 @@ func H_C07_legacy_client() {
 		}
 		posts++
 		if posts == 1 {
-			stream.push([]byte(c07Place(pos, c07Bads(kind, 1, "event: message\n"), c07Answer(id, "yours"), "event: message\n")))
+			stream.push([]byte(c07Place(pos, c07Bads(kind, 1, badPrefix), c07Answer(id, "yours"), "event: message\n")))
 		} else {
 			stream.push([]byte("event: message\ndata: " + string(c07Answer(id, "yours2")) + "\n\n"))
 		}
